@@ -58,6 +58,9 @@ struct Scn {
     /// script of the requester's flow-id generator for concurrent requests (empty = no collisions): ids that are taken
     /// by a pending request, and 0, are proposed and must be passed over
     draws: &'static [u32],
+    /// with `faults`: one more request is issued this many steps after the connection end was injected (while the
+    /// endpoint is still winding down); usize::MAX = only once everything has settled
+    late_after: usize,
 }
 
 #[derive(Clone, Copy, Debug, PartialEq, Eq)]
@@ -163,6 +166,7 @@ fn exec(sc: &Scn, render: bool) -> RunOutput {
     let mut fault_taken = false;
     let mut cancelled: Option<usize> = None;
     let mut late_issued = false;
+    let mut since_fault: Option<usize> = None;
     loop {
         if w.sim.steps >= 5000 {
             horizon = true;
@@ -182,6 +186,15 @@ fn exec(sc: &Scn, render: bool) -> RunOutput {
                 continue;
             }
             break;
+        }
+        if let Some(n) = since_fault.as_mut() {
+            if *n == sc.late_after && !late_issued && w.mux[0].is_some() {
+                // the application asks again while the endpoint is still taking the connection down
+                late_issued = true;
+                w.spawn_bind_requester(0, 200, 1, b"late".to_vec(), 9);
+                continue;
+            }
+            *n += 1;
         }
         let c = choose(&kinds);
         let nsched = en.len().max(1);
@@ -207,6 +220,9 @@ fn exec(sc: &Scn, render: bool) -> RunOutput {
             fault_taken = true;
             if f != Fault::CancelFirstRequest {
                 fault = Some(f);
+                if matches!(f, Fault::CutBoth | Fault::DropResponderMux) {
+                    since_fault = Some(0);
+                }
             }
             wit |= W_FAULT;
             w.sim.log.push(Step::Extra(c - nsched));
@@ -455,7 +471,7 @@ pub fn run(args: &Args) -> Report {
             sc.collide,
             sc.sequential_same_id,
             sc.reject_hold,
-            if sc.many_responders { " one responder task per request, all waiting in next_bind_request at the same time".to_string() } else if sc.draws.is_empty() { String::new() } else { format!(" requester's flow-id draws {:?}", sc.draws) }
+            if sc.many_responders { " one responder task per request, all waiting in next_bind_request at the same time".to_string() } else if sc.late_after != usize::MAX { format!(" one more request issued {} step(s) after the connection end was injected", sc.late_after) } else if sc.draws.is_empty() { String::new() } else { format!(" requester's flow-id draws {:?}", sc.draws) }
         );
         cases.push(Case { try_unbounded: false, max_k: u32::MAX, label, exec: Box::new(move |r| exec(&sc, r)) });
     };
@@ -471,30 +487,37 @@ pub fn run(args: &Args) -> Report {
                     if !thorough && n == 3 && buf == 4 && code % 3 != 0 {
                         continue;
                     }
-                    add(Scn { reqs: pool[..n].to_vec(), answers: answers.clone(), order: order.clone(), buf, with_traffic: n == 2 && code % 5 == 0, both_sides: thorough && n == 2 && code % 7 == 0, faults: false, collide: false, sequential_same_id: false, reject_hold: false, many_responders: false, draws: &[] });
+                    add(Scn { reqs: pool[..n].to_vec(), answers: answers.clone(), order: order.clone(), buf, with_traffic: n == 2 && code % 5 == 0, both_sides: thorough && n == 2 && code % 7 == 0, faults: false, collide: false, sequential_same_id: false, reject_hold: false, many_responders: false, draws: &[], late_after: usize::MAX });
                 }
             }
             if n <= 2 {
-                add(Scn { reqs: pool[..n].to_vec(), answers: answers.clone(), order: (0..n).collect(), buf: 1, with_traffic: false, both_sides: false, faults: false, collide: true, sequential_same_id: false, reject_hold: false, many_responders: false, draws: &[] });
-                add(Scn { reqs: pool[..n].to_vec(), answers: answers.clone(), order: (0..n).collect(), buf: 1, with_traffic: false, both_sides: false, faults: true, collide: false, sequential_same_id: false, reject_hold: false, many_responders: false, draws: &[] });
+                add(Scn { reqs: pool[..n].to_vec(), answers: answers.clone(), order: (0..n).collect(), buf: 1, with_traffic: false, both_sides: false, faults: false, collide: true, sequential_same_id: false, reject_hold: false, many_responders: false, draws: &[], late_after: usize::MAX });
+                add(Scn { reqs: pool[..n].to_vec(), answers: answers.clone(), order: (0..n).collect(), buf: 1, with_traffic: false, both_sides: false, faults: true, collide: false, sequential_same_id: false, reject_hold: false, many_responders: false, draws: &[], late_after: usize::MAX });
+            }
+        }
+        // a request issued WHILE the endpoint takes the connection down (0..=10 steps after the end was injected, the end
+        // itself at every point): it resolves like one issued afterwards
+        if n == 1 {
+            for late_after in 0..=10usize {
+                add(Scn { reqs: pool[..n].to_vec(), answers: vec![BindAnswer::Accept], order: vec![0], buf: 1, with_traffic: false, both_sides: false, faults: true, collide: false, sequential_same_id: false, reject_hold: false, many_responders: false, draws: &[], late_after });
             }
         }
         // one task issues the requests one after the other and draws the same flow id every time
         if n >= 2 {
             for a in [BindAnswer::Accept, BindAnswer::Reject, BindAnswer::DropIt] {
-                add(Scn { reqs: pool[..n].to_vec(), answers: vec![a; n], order: (0..n).collect(), buf: 1, with_traffic: false, both_sides: false, faults: false, collide: false, sequential_same_id: true, reject_hold: false, many_responders: false, draws: &[] });
+                add(Scn { reqs: pool[..n].to_vec(), answers: vec![a; n], order: (0..n).collect(), buf: 1, with_traffic: false, both_sides: false, faults: false, collide: false, sequential_same_id: true, reject_hold: false, many_responders: false, draws: &[], late_after: usize::MAX });
             }
         }
         // ... and the responder answers the first one `false`, holds on to the request object, and drops it only when the
         // second request has reached it (which it accepts)
         if n == 2 {
-            add(Scn { reqs: pool[..n].to_vec(), answers: vec![BindAnswer::Reject, BindAnswer::Accept], order: (0..n).collect(), buf: 1, with_traffic: false, both_sides: false, faults: false, collide: false, sequential_same_id: true, reject_hold: true, many_responders: false, draws: &[] });
+            add(Scn { reqs: pool[..n].to_vec(), answers: vec![BindAnswer::Reject, BindAnswer::Accept], order: (0..n).collect(), buf: 1, with_traffic: false, both_sides: false, faults: false, collide: false, sequential_same_id: true, reject_hold: true, many_responders: false, draws: &[], late_after: usize::MAX });
         }
         // a pool of responder tasks, all waiting in next_bind_request at the same time (uniform answers)
         if n >= 2 {
             for a in [BindAnswer::Accept, BindAnswer::Reject] {
                 for buf in [1usize, 4] {
-                    add(Scn { reqs: pool[..n].to_vec(), answers: vec![a; n], order: (0..n).collect(), buf, with_traffic: false, both_sides: false, faults: false, collide: false, sequential_same_id: false, reject_hold: false, many_responders: true, draws: &[] });
+                    add(Scn { reqs: pool[..n].to_vec(), answers: vec![a; n], order: (0..n).collect(), buf, with_traffic: false, both_sides: false, faults: false, collide: false, sequential_same_id: false, reject_hold: false, many_responders: true, draws: &[], late_after: usize::MAX });
                 }
             }
         }
@@ -503,13 +526,13 @@ pub fn run(args: &Args) -> Report {
             for draws in [&[5u32, 5, 6][..], &[5, 0, 5, 6], &[0, 5, 0, 0, 5, 7]] {
                 for answers in [[BindAnswer::Accept, BindAnswer::Reject], [BindAnswer::Reject, BindAnswer::Accept], [BindAnswer::Never, BindAnswer::Accept], [BindAnswer::Accept, BindAnswer::Accept]] {
                     for order in [vec![0usize, 1], vec![1, 0]] {
-                        add(Scn { reqs: pool[..n].to_vec(), answers: answers.to_vec(), order, buf: 4, with_traffic: false, both_sides: false, faults: false, collide: false, sequential_same_id: false, reject_hold: false, many_responders: false, draws });
+                        add(Scn { reqs: pool[..n].to_vec(), answers: answers.to_vec(), order, buf: 4, with_traffic: false, both_sides: false, faults: false, collide: false, sequential_same_id: false, reject_hold: false, many_responders: false, draws, late_after: usize::MAX });
                     }
                 }
             }
         }
         // binds disabled on the responder
-        add(Scn { reqs: pool[..n].to_vec(), answers: vec![BindAnswer::Accept; n], order: (0..n).collect(), buf: 0, with_traffic: n == 2, both_sides: false, faults: false, collide: false, sequential_same_id: false, reject_hold: false, many_responders: false, draws: &[] });
+        add(Scn { reqs: pool[..n].to_vec(), answers: vec![BindAnswer::Accept; n], order: (0..n).collect(), buf: 0, with_traffic: n == 2, both_sides: false, faults: false, collide: false, sequential_same_id: false, reject_hold: false, many_responders: false, draws: &[], late_after: usize::MAX });
     }
     let plan = Plan {
         ks: if thorough { vec![0, 1, 2, 3, 4, 5] } else { vec![0, 1, 2] },
